@@ -237,8 +237,8 @@ def oracle_c04(case, out):
             if case["solver"] == "DE2" and s["emx"] is not None and len(s["emx"]) == 0 and s["evals"] < s["ncalls"] \
                and any(energy_of_call(case, c) in (math.inf, -math.inf) for c in out["calls"]):
                 pat = "de2-skips-infinite-energies-without-evaluation-monitor"
-            elif case["solver"] == "DE2" and s["emx"] is not None and s["evals"] == len(s["emx"]) and emon_new_midrun:
-                pat = "de2-counter-is-monitor-length-after-new-monitor"
+            elif case["solver"] == "DE2" and s["emx"] is not None and len(s["emx"]) > 0 and s["evals"] == len(s["emx"]):
+                pat = "de2-counter-is-monitor-length"
             f.append(fail("counter_is_calls", site_of(case), pat, dict(op=k, evaluations=s["evals"], real=s["ncalls"])))
         if o == "SetEvalMonitor":
             if emon_from is None:
